@@ -11,10 +11,14 @@ Hypotheses (exactly those the proofs use):
 * `Distinct pool` — the inputs of the pool are pairwise distinct (what a UTxO set is);
 * `PoolWF pool` — every amount is a legal dict (unique keys: true of every Python dict);
 * `OutsWF outputs` — the requested amounts are legal dicts;
-* for coverage only, `PoolOK pool` — `PoolWF` and no negative quantity in the pool.  Without it coverage is false
-  of the code: `Value.__le__` is key-directed (KF-C05-le-negative), so a pool entry carrying −5 of a token the
-  request does not mention is selected (reproduced on /repo: `select` returns it with a change holding −5) although
-  the selection then "covers" 0 with −5; the ledger admits no such entry.
+* for the coverage of the randomized strategy only (`ri_covers`), `PoolOK pool` — `PoolWF` and no negative quantity in
+  the pool.  `Value.__le__` is the component-wise order for all operands (`Pyc.C05.le_iff`, after the repair of
+  KF-C05-le-negative), so every loop that ends on `requested <= selected_amount` ends covering, whatever the pool
+  holds: largest-first needs no sign hypothesis at all (`lf_covers`; its top-up ends on `<=` against an ADA-only
+  request, which also demands that the added inputs hold no net negative quantity).  Random-improve covers the
+  single-asset requests one after the other and then improves without testing `<=` again, so an input taken later
+  that carries a negative quantity of an asset covered earlier leaves that asset under-covered (witness below);
+  the ledger admits no such entry.
 
 The input limit (`lf_limit`, `ri_limit`) needs none of these hypotheses: it holds for every pool, request, flags, index
 stream and every limit `l ≥ 0`, the inputs added by the min-change top-up included.  `max_input_count` is tested with
@@ -64,17 +68,18 @@ theorem lf_subset (env : Env) (pool : List UTxO) (outputs : List Output) (limit 
     (hd : Distinct pool) (hp : PoolWF pool) (ho : OutsWF outputs)
     (h : lfSelect env pool outputs limit includeFee respectMin = .ok (sel, change)) :
     (sel.map UTxO.ref).Nodup ∧ (∀ u ∈ sel, u ∈ pool) ∧ ∃ rest, (sel ++ rest).Perm pool := by
-  obtain ⟨f, _, g⟩ := lfSelect_ok (PoolN.ofWF hp) hd env outputs ho limit includeFee respectMin sel change h
+  obtain ⟨f, _, g⟩ := lfSelect_ok hp hd env outputs ho limit includeFee respectMin sel change h
   exact ⟨g.nodup, g.sub, subperm_of_nodup_subset sel pool (nodup_of_map _ _ g.nodup) g.sub⟩
 
-/-- request (plus the maximum fee when asked) ≤ Σ selected, in ADA and in every asset -/
+/-- request (plus the maximum fee when asked) ≤ Σ selected, in ADA and in every asset — for every pool of legal
+dicts, negative quantities included (`PoolWF`; the hypothesis was `PoolOK` while `<=` was key-directed) -/
 theorem lf_covers (env : Env) (pool : List UTxO) (outputs : List Output) (limit : Option Int)
     (includeFee respectMin : Bool) (sel : List UTxO) (change : Value)
-    (hd : Distinct pool) (hp : PoolOK pool) (ho : OutsWF outputs)
+    (hd : Distinct pool) (hp : PoolWF pool) (ho : OutsWF outputs)
     (h : lfSelect env pool outputs limit includeFee respectMin = .ok (sel, change)) :
     ∃ fee, feeOf env includeFee = some fee ∧ reqCoin fee outputs ≤ heldCoin sel ∧
       ∀ p n, reqQty outputs p n ≤ heldQty sel p n := by
-  obtain ⟨f, hf, g⟩ := lfSelect_ok (PoolN.ofOK hp) hd env outputs ho limit includeFee respectMin sel change h
+  obtain ⟨f, hf, g⟩ := lfSelect_ok hp hd env outputs ho limit includeFee respectMin sel change h
   exact ⟨f, hf, good_covers ho g⟩
 
 /-- change = Σ selected − request, in ADA and in every asset -/
@@ -84,7 +89,7 @@ theorem lf_change (env : Env) (pool : List UTxO) (outputs : List Output) (limit 
     (h : lfSelect env pool outputs limit includeFee respectMin = .ok (sel, change)) :
     ∃ fee, feeOf env includeFee = some fee ∧ change.coin = heldCoin sel - reqCoin fee outputs ∧
       ∀ p n, Value.qty change p n = heldQty sel p n - reqQty outputs p n := by
-  obtain ⟨f, hf, g⟩ := lfSelect_ok (PoolN.ofWF hp) hd env outputs ho limit includeFee respectMin sel change h
+  obtain ⟨f, hf, g⟩ := lfSelect_ok hp hd env outputs ho limit includeFee respectMin sel change h
   exact ⟨f, hf, good_change ho g⟩
 
 /-- never more inputs than the stated limit: whenever a selection is returned and a limit `l ≥ 0` was given,
@@ -140,18 +145,20 @@ example :
     errOf (lfSelect wEnv wPool [] (some 0) false true) = some .maxInputs := by decide +kernel
 
 /-- when largest-first reports an insufficient balance, the pool does not cover the request (plus fee) — or, in
-min-change mode, the pool's ADA is below request + the minimum change of the first-phase selection -/
-theorem lf_insufficient_genuine (env : Env) (pool : List UTxO) (outputs : List Output) (limit : Option Int)
-    (includeFee respectMin : Bool) (hd : Distinct pool) (hw : PoolWF pool)
-    (ho : ∀ o ∈ outputs, Value.WF o.amount ∧ ∀ p n, 0 ≤ Value.qty o.amount p n)
+min-change mode, what the first phase left (`s.avail`) does not cover the ADA-only top-up request: the pool's ADA is
+below request + the minimum change of the first-phase selection, or `s.avail` holds a net negative quantity of some
+asset (the top-up ends on the component-wise `<=`).  For every pool of legal dicts and every request of legal dicts
+(the non-negativity of the requested quantities, needed while `<=` was key-directed, is dropped). -/
+theorem lf_insufficient_genuine_wf (env : Env) (pool : List UTxO) (outputs : List Output) (limit : Option Int)
+    (includeFee respectMin : Bool) (hd : Distinct pool) (hw : PoolWF pool) (ho : OutsWF outputs)
     (h : lfSelect env pool outputs limit includeFee respectMin = .error .insufficient) :
     ∃ fee, feeOf env includeFee = some fee ∧
       (¬ (reqCoin fee outputs ≤ heldCoin pool ∧ ∀ p n, reqQty outputs p n ≤ heldQty pool p n) ∨
        (respectMin = true ∧ ∃ s minChange, lfBase fee pool outputs limit = .ok s ∧
           env.minChange (Value.sub s.amt (requestSum fee outputs)) = some minChange ∧
-          heldCoin pool < reqCoin fee outputs + minChange)) := by
-  obtain ⟨f, hf, hh⟩ := lfSelect_insufficient hw hd env outputs ho limit includeFee respectMin h
-  have hs := requestSum_spec f outputs (fun o h => (ho o h).1)
+          ¬ (reqCoin fee outputs + minChange ≤ heldCoin pool ∧ ∀ p n, 0 ≤ heldQty s.avail p n))) := by
+  obtain ⟨f, hf, hh⟩ := lfSelect_insufficient hw hd env outputs limit includeFee respectMin h
+  have hs := requestSum_spec f outputs ho
   refine ⟨f, hf, ?_⟩
   rcases hh with hh | ⟨hm, s, mc, h1, h2, h3⟩
   · left
@@ -163,6 +170,33 @@ theorem lf_insufficient_genuine (env : Env) (pool : List UTxO) (outputs : List O
   · right
     refine ⟨hm, s, mc, h1, h2, ?_⟩
     rw [hs.2.2.1] at h3; exact h3
+
+/-- when largest-first reports an insufficient balance, the pool does not cover the request (plus fee) — or, in
+min-change mode, the pool's ADA is below request + the minimum change of the first-phase selection.  The pool holds
+no negative quantity (`PoolOK`: the top-up's component-wise `<=` refuses a net negative quantity in what was left,
+see `lf_insufficient_genuine_wf` for the statement without this hypothesis); the requested quantities are arbitrary
+(their non-negativity, needed while `<=` was key-directed, is dropped). -/
+theorem lf_insufficient_genuine (env : Env) (pool : List UTxO) (outputs : List Output) (limit : Option Int)
+    (includeFee respectMin : Bool) (hd : Distinct pool) (hw : PoolOK pool) (ho : OutsWF outputs)
+    (h : lfSelect env pool outputs limit includeFee respectMin = .error .insufficient) :
+    ∃ fee, feeOf env includeFee = some fee ∧
+      (¬ (reqCoin fee outputs ≤ heldCoin pool ∧ ∀ p n, reqQty outputs p n ≤ heldQty pool p n) ∨
+       (respectMin = true ∧ ∃ s minChange, lfBase fee pool outputs limit = .ok s ∧
+          env.minChange (Value.sub s.amt (requestSum fee outputs)) = some minChange ∧
+          heldCoin pool < reqCoin fee outputs + minChange)) := by
+  have hwf : PoolWF pool := fun u hu => (hw u hu).1
+  obtain ⟨f, hf, hh⟩ := lf_insufficient_genuine_wf env pool outputs limit includeFee respectMin hd hwf ho h
+  refine ⟨f, hf, ?_⟩
+  rcases hh with hh | ⟨hm, s, mc, h1, h2, h3⟩
+  · exact Or.inl hh
+  · right
+    refine ⟨hm, s, mc, h1, h2, ?_⟩
+    obtain ⟨_, _, hperm⟩ := lfBase_inv hwf hd f outputs limit s h1
+    have hnn : ∀ p n, 0 ≤ heldQty s.avail p n := fun p n =>
+      sumBy_nonneg _ _ (fun u hu => (hw u (hperm.subset (List.mem_append_right _ hu))).2.2 p n)
+    apply Int.not_le.1
+    intro hc
+    exact h3 ⟨hc, hnn⟩
 
 /-! ## RandomImproveMultiAsset (`stream` = the injected random indices, universally quantified) -/
 
@@ -252,7 +286,7 @@ example :
     errOf (riSelect wEnv [] [wOut ⟨1000000, []⟩] (some 0) false false [0]) = some .depleted ∧
     errOf (riSelect wEnv wPool [] (some 0) false true [0]) = some .maxInputs := by decide +kernel
 
-/-! ## the non-negativity hypothesis of `lf_covers` / `ri_covers` is needed -/
+/-! ## negative quantities in the pool -/
 
 /-- quantity of asset `(p, n)` held by the inputs of a result -/
 def resultQty (r : Except SelErr (List UTxO × Value)) (p n : Bytes) : Option Int :=
@@ -260,13 +294,31 @@ def resultQty (r : Except SelErr (List UTxO × Value)) (p n : Bytes) : Option In
   | .ok (s, _) => some (heldQty s p n)
   | .error _ => none
 
-/-- a pool entry carrying −5 of a token: both strategies return it for a request that does not mention the token
-(requested 0, held −5; the change holds −5 as well) — the same on /repo.  No ledger UTxO looks like this. -/
+/-- a pool entry carrying −5 of a token, for a request that does not mention the token: while `<=` was key-directed
+both strategies returned it (requested 0, held −5: KF-C05-le-negative); the component-wise `<=` is never satisfied
+with −5 of the token selected, so both now refuse (`InsufficientUTxOBalanceException`, `InputUTxODepletedException`)
+— the same on /repo -/
 example :
-    resultQty (lfSelect wEnv [wUtxo 1 ⟨3000000, [([7, 7], [([1], -5)])]⟩, wUtxo 2 ⟨2000000, []⟩]
-      [wOut ⟨2500000, []⟩] none false false) [7, 7] [1] = some (-5) ∧
-    resultQty (riSelect wEnv [wUtxo 1 ⟨3000000, [([7, 7], [([1], -5)])]⟩, wUtxo 2 ⟨2000000, []⟩]
-      [wOut ⟨2500000, []⟩] none false false [0, 0, 0]) [7, 7] [1] = some (-5) := by decide +kernel
+    errOf (lfSelect wEnv [wUtxo 1 ⟨3000000, [([7, 7], [([1], -5)])]⟩, wUtxo 2 ⟨2000000, []⟩]
+      [wOut ⟨2500000, []⟩] none false false) = some .insufficient ∧
+    errOf (riSelect wEnv [wUtxo 1 ⟨3000000, [([7, 7], [([1], -5)])]⟩, wUtxo 2 ⟨2000000, []⟩]
+      [wOut ⟨2500000, []⟩] none false false [0, 0, 0]) = some .depleted := by decide +kernel
+
+/-- the largest-first top-up refuses an input that would bring a net negative quantity: 3 ADA cover the 2.9 ADA
+requested, the change of 0.1 ADA is below the minimum, and the only other entry (2 ADA, −5 of a token) does not
+satisfy `Value(min_change - change.coin) <= selected_amount` -/
+example :
+    errOf (lfSelect wEnv [wUtxo 1 ⟨3000000, []⟩, wUtxo 2 ⟨2000000, [([7, 7], [([1], -5)])]⟩]
+      [wOut ⟨2900000, []⟩] none false true) = some .insufficient := by decide +kernel
+
+/-- **the non-negativity hypothesis of `ri_covers` is needed**: 5 000 000 of a token and 1 ADA requested.  Phase 1
+covers the token first (the larger single-asset request) with entry 1, then the ADA with entry 2, which carries −3 of
+the token: `Value(1000000) <= selected_amount` holds (0 ≤ 4 999 997), the token request is not looked at again —
+4 999 997 held for 5 000 000 requested.  The same on /repo.  No ledger UTxO looks like entry 2. -/
+example :
+    resultQty (riSelect wEnv [wUtxo 1 ⟨500000, [([7, 7], [([1], 5000000)])]⟩, wUtxo 2 ⟨2000000, [([7, 7], [([1], -3)])]⟩]
+      [wOut ⟨1000000, [([7, 7], [([1], 5000000)])]⟩] none false false [0, 0, 0]) [7, 7] [1] = some 4999997 := by
+  decide +kernel
 
 /-! ## non-vacuity -/
 
@@ -291,6 +343,7 @@ end Pyc.C14
 #print axioms Pyc.C14.lf_change
 #print axioms Pyc.C14.lf_limit
 #print axioms Pyc.C14.lf_limit_zero
+#print axioms Pyc.C14.lf_insufficient_genuine_wf
 #print axioms Pyc.C14.lf_insufficient_genuine
 #print axioms Pyc.C14.ri_subset
 #print axioms Pyc.C14.ri_covers
